@@ -4,6 +4,8 @@ from facts import callee_decl, callee_name
 from flow import (tracer, short, required_outcomes, dep_closure, is_next_switch, named_const, switch_cond, edge_outcome, cmp_facts,
                   deep_origins, next_sources)
 from bounds import const_value
+from flow import promoted_variant
+
 
 EXPLANATION = (
     "R1: bytes go to the update channel only from Updates::send, once per client per send_messages iteration. R2: writer and reader "
@@ -379,14 +381,49 @@ def r5_paired_map(ctx):
                 key_from_entry = any(k == "call" and callee_decl(b.blocks[d].term).endswith("::key") for (k, d) in dep_closure(b, tb_["args"][2]))
                 ctx.check(val_same and key_from_entry, "%s/key-value-swapped" % short(p), site_of(b, ib[0][0]), "the reverse map is not given (value -> entry key)")
     ctx.check(n >= 4, "paired-mutators", "", "only %d paired mutators analysed" % n)
+    apply_despawn_unmaps(ctx)
+
+
+def apply_despawn_unmaps(ctx):
+    """A despawn record removes the mapping of the server entity it names on every non-error path - also when the client entity is
+    already gone (despawned through its parent): a stale server->client entry would later resolve references to a dead entity
+    (map-or-refuse, C04.R5) and block the id if the server reuses it. And what is despawned is the entity the map held for it."""
+    F = ctx.F
     ad = ctx.fn("client::apply_despawn")
+    tr = tracer(ad)
+    dec = [bb for bb, t in ad.calls() if callee_decl(t).endswith("entity_serde::deserialize_entity")]
+    rm = []
+    for bb, t in ad.calls():
+        d = callee_decl(t)
+        if d.endswith("server_entity_map::EntityEntry::<'a>::remove") or d.endswith("ServerEntityMap::remove_by_server") or d.endswith("server_entity_map::OccupiedEntityEntry::<'_>::remove"):
+            rm.append(bb)
+    if not ctx.check(bool(dec) and bool(rm), "apply_despawn/unmaps", site_of(ad), "apply_despawn does not remove the server entity's mapping (%d decode / %d remove sites)" % (len(dec), len(rm))):
+        return
+    # keyed by the decoded entity
+    keyed = True
+    for bb in rm:
+        t = ad.blocks[bb].term
+        deps = set()
+        for a_ in t.get("args", []):
+            deps |= dep_closure(ad, a_)
+        if not any(("call", d_) in deps for d_ in dec):
+            keyed = False
+    ctx.check(keyed, "apply_despawn/unmaps-the-named-entity", site_of(ad, rm[0]), "the removed mapping is not the one of the entity named in the despawn record")
+    # on every non-error path after decoding
+    res = [bb for bb, t in ad.calls() if callee_decl(t).endswith("FromResidual::from_residual")]
+    skipping = []
+    for e in ad.exits():
+        for d_ in dec:
+            for (t2, lab) in ad.succ[d_]:
+                if ad.reachable_avoiding(e, (), start=t2, removed_blocks=tuple(rm + res)):
+                    skipping.append(e)
+    ctx.check(not skipping, "apply_despawn/unmaps-on-every-path", site_of(ad, rm[0]),
+              "a despawn record can be consumed without removing the entity's mapping (e.g. when the client entity is already gone): the stale entry resolves later references to a "
+              "dead entity instead of refusing them")
+    # the despawned entity comes out of the map (removed value or lookup of the decoded entity)
     desp = [(bb, t) for bb, t in ad.calls() if "indirect" in t.get("callee", {})]
-    rm = [bb for bb, t in ad.calls() if callee_decl(t).endswith("server_entity_map::EntityEntry::<'a>::remove")]
-    ok = bool(desp) and bool(rm) and all(any(k == "call" and d in rm for (k, d) in dep_closure(ad, t["args"][1])) for bb, t in desp)
-    ctx.check(ok, "apply_despawn/removes-mapping-it-despawns", site_of(ad), "an entity is despawned on the client without its map entry having been removed")
-
-
-from flow import promoted_variant
+    ok = bool(desp) and all(any(k == "call" and (d_ in rm or callee_decl(ad.blocks[d_].term).rsplit("::", 1)[-1] in ("get", "get_by_server", "to_client")) for (k, d_) in dep_closure(ad, t["args"][1])) for bb, t in desp)
+    ctx.check(ok, "apply_despawn/removes-mapping-it-despawns", site_of(ad), "the despawned entity is not the one the entity map holds for the named server entity")
 
 
 def r6_exact_filters(ctx):
@@ -621,6 +658,43 @@ def r10_reserved_entities_materialised(ctx):
     ctx.check(n >= 3, "record-handlers", "", "only %d record handlers use DeferredEntity" % n)
 
 
+
+def r11_record_counters(ctx):
+    """Sections of the update message are framed by element counts kept next to the byte ranges (`mappings_len`, `despawns_len`,
+    `components_len`, ...). Adjacent byte ranges are merged, so the number of ranges says nothing about the number of records: every
+    function that adds a record must count it on *every* path (also the one that merges the range into the previous one), and the
+    reset must zero every counter. A count that is too small makes the reader parse the remaining records as the next section."""
+    F = ctx.F
+    n = 0
+    counters = set()
+    for p, b in sorted(F.fns.items()):
+        if "server::replication_messages" not in p or "::tests::" in p or not b.blocks or b.kind not in ("AssocFn", "Fn"):
+            continue
+        for bb, i, st in b.statements():
+            if st["s"] != "assign" or not st["place"]["p"]:
+                continue
+            last = st["place"]["p"][-1]
+            if not (isinstance(last, dict) and "name" in last and last["name"].endswith("_len")):
+                continue
+            n += 1
+            counters.add((last.get("adt"), last["name"]))
+            ctx.check(b.postdominates(bb, 0), "%s/%s-counted-on-every-path" % (short(p), last["name"]), "%s (%s)" % (b.path, st.get("span", b.span)),
+                      "`%s` is updated only on some paths of `%s`: a record added on the other paths (e.g. merged into the previous byte range) is not counted, the section's "
+                      "length prefix is too small and the reader takes the remaining records for the next section" % (last["name"], short(p)))
+    ctx.check(n >= 5, "counters/sites", "", "only %d writes of element counters found in the message buffers" % n)
+    # every counter is serialised by the writer (a counter nobody writes to the wire would make the check vacuous)
+    snd = ctx.fn("replication_messages::updates::Updates::send")
+    tr = tracer(snd)
+    written = set()
+    for bb, t in snd.calls():
+        if callee_decl(t).endswith("postcard_utils::to_extend_mut"):
+            for o in tr.operand(t["args"][0]):
+                for e in o.path:
+                    if e[0] == "f" and e[2] and e[2].endswith("_len"):
+                        written.add(e[2])
+    names = {c[1] for c in counters}
+    ctx.check(names <= written | {"ids_len"} or bool(written & names), "counters/serialised", site_of(snd), "counters %s vs serialised %s" % (sorted(names), sorted(written)))
+
 from rules.first_sight import r_first_sight
 
 RULES = [
@@ -634,5 +708,6 @@ RULES = [
     ("C03.R8", "recycled buffers of the replication path are empty when reused (no records of an earlier tick or entity in a message)", r8_recycled_buffers, 6, ["default", "all-features", "server-only"]),
     ("C03.R9", "a despawn supersedes removal records buffered earlier in the tick window (no zombie re-created by a removal after the despawn)", r9_despawn_supersedes, 2, ["default", "all-features", "server-only"]),
     ("C03.R10", "entities reserved by entity mapping are materialised before the next record (handlers end in DeferredEntity::flush, which always flushes the world)", r10_reserved_entities_materialised, 6, ["default", "all-features", "client-only"]),
+    ("C03.R11", "element counters that frame the message sections count every record on every path (also when byte ranges are merged)", r11_record_counters, 6, ["default", "all-features", "server-only"]),
 ]
 THOROUGH_CONFIGS = ["default", "all-features", "server-only", "client-only"]
